@@ -328,8 +328,11 @@ class Ctx:
       cov['discharged'] = 0
       ev['level'] = 'other'
       cov['explanation'] = 'proof build failed in this run: ' + '; '.join(self.proof.get('problems', []))
-    (VERIF / 'evidence').mkdir(exist_ok=True)
-    (VERIF / 'evidence' / f'{self.pid}.json').write_text(json.dumps(ev, indent=1, default=str))
+    # evidence is only ever written from a run against /repo itself; runs against a scratch worktree (VERIF_REPO, used to
+    # try seeded changes) leave their evidence in seeded/_evidence_scratch/ (git-ignored)
+    evdir = VERIF / 'evidence' if str(REPO) == '/repo' else VERIF / 'seeded' / '_evidence_scratch'
+    evdir.mkdir(parents=True, exist_ok=True)
+    (evdir / f'{self.pid}.json').write_text(json.dumps(ev, indent=1, default=str))
     shutil.rmtree(self.scratch, ignore_errors=True)
     for key, what in self.known_hits:
       print(f'KNOWN-FINDING: property={self.pid} {what}')
